@@ -562,6 +562,11 @@ package zygo
 //@ C02 assert callee-is-looked-up-on-every-execution @before call CallResolved[*]: lookedUp && arg1 == resolved && arg2 == resolvedName && same(arg3, c.args)
 //@ C02 assert looks-up-the-callee-expression @before call EvalCallExpression[0]: arg1 == c.callee
 //@ fieldsclosed C02 CallExprInstr | callee, args
+// an operator rune ends the atom before it: in the normal state the runes * < > = ! & | are never
+// written into the atom buffer (x!=y is x, !=, y whatever the spacing); + and - only as the sign of
+// an exponent (the rune right after a tilde is the one exception: it starts the unquoted atom)
+//@ func (*Lexer).LexNextRune
+//@ C06 assert an-operator-rune-ends-the-atom @before call WriteRune[*]: lexer.state == LexerNormal && !tildeJustRead ==> !(arg1 == 42 || arg1 == 60 || arg1 == 62 || arg1 == 61 || arg1 == 33 || arg1 == 38 || arg1 == 124)
 // mdef: every target slot is filled with a symbol before the value is compiled; the bind
 // instruction hands each one to BindSymbol, which dereferences it
 //@ func (*Generator).GenerateMultiDef
@@ -1821,7 +1826,7 @@ package zygo
 //@ ghost tildeJustRead := false @entry
 //@ ghost tildeJustRead := arg1.typ == TokenTilde @after call AppendToken[*]
 //@ C15 assert tilde-does-not-swallow-a-delimiter @before call WriteRune[*]: tildeJustRead ==> !opensToken(arg1)
-//@ C15 loop 0 invariant rescan-after-tilde: tildeJustRead ==> lexer.state == LexerNormal && (opensToken(r) || r == 39 || r == 96 || r == 126 || r == 94)
+//@ C06,C15 loop 0 invariant rescan-after-tilde: tildeJustRead ==> lexer.state == LexerNormal && (opensToken(r) || r == 39 || r == 96 || r == 126 || r == 94)
 
 // C17: construction. A record built for a declared struct is checked member by member with the
 // same field check the write routes use: each key of the new record with the value stored under
